@@ -186,6 +186,21 @@ META = {
         level_text="Metamorphic oracle over ~6x10^3 (quick) / 5x10^5 (thorough) scenes x 3 alternative renderings of the real renderer; exploration.",
         level_note="Trusts only equality between renderings of the same code (no reference model).",
     ),
+    "C12": dict(
+        level="exploration",
+        technique="runtime monitoring: model-based monitor over random track trees: DC sounds with power-of-two levels (the output level decodes exactly which sounds are audible), per-sound position continuity, num_sub_tracks and state() after every callback; start-delay extension under pauses; state() totality under pause/resume/resume_at histories",
+        design_ref="DESIGN.md §3 C12",
+        rule=("(a) Trees of 1-6 tracks (nested, persist_until_sounds_finish on/off) with 0-2 looping or finite DC sounds per track; histories of instant pause/resume and resume_at(delayed 2-9 chunks) on any node, handle drops of any node, sound stops, callbacks of 1-3 chunks. After every callback: the set of audible sounds (decoded from the summed DC level) equals the model "
+              "(a paused track silences its whole subtree exactly; a dropped track is silent at the next callback unless it persists until its sounds have finished and been unloaded, or a descendant track is still alive); positions of sounds under a steadily paused track are constant and advance by exactly the callback's frames otherwise (continue exactly where they froze); "
+              "num_sub_tracks of the manager and of every live handle equal the model; state() equals Playing/Paused. Fades requested while an ancestor is paused are deferred (they do not advance in a frozen subtree). "
+              "(b) a sound with a start delay on a (nested) track paused for P chunks with a fade becomes audible P chunks later (+- the fade and one chunk). (c) random pause/resume/resume_at(delayed | clock | clock later dropped) histories with fades: state() never panics and is one of the five states. A case is distinct per (kind, index)."),
+        domain="instant fades in (a); fades 0..3 chunks in (b),(c); excluded while listed as known finding: dropping the clock a resume_at waits on (state() then panics)",
+        assumptions=["a Stopped sound is unloaded at the next callback and the persisting track is examined before that, so it is removed one callback later", "DC levels 2^-(b+2) sum exactly in f32"],
+        quick=[rel(30)],
+        thorough=[rel(600)],
+        level_text="Model-based monitoring of ~2x10^4 (quick) / 2x10^6 (thorough) random track-tree histories on the real mixer; exploration.",
+        level_note="Trusts the harness model of the documented pause/removal rules.",
+    ),
     "C13": dict(
         level="exploration",
         technique="runtime monitoring: metamorphic relations between runs of fresh Box<dyn Effect> instances (dry identity, silence, finiteness, exact homogeneity, noise-calibrated superposition, partition independence)",
